@@ -71,4 +71,29 @@ impl gmsol_model::Pool for Pool {
         }
         Ok(ans)
     }
+
+    fn checked_cancel_amounts(&self) -> gmsol_model::Result<Self>
+    where
+        Self::Signed: gmsol_model::num_traits::CheckedSub,
+    {
+        let mut ans = *self;
+        if self.is_pure() {
+            ans.long_token_amount &= 1;
+        } else {
+            (ans.long_token_amount, ans.short_token_amount) =
+                cancel_amounts(ans.long_token_amount, ans.short_token_amount);
+        }
+
+        Ok(ans)
+    }
+}
+
+fn cancel_amounts(long_amount: u128, short_amount: u128) -> (u128, u128) {
+    let is_long_side_left = long_amount >= short_amount;
+    let leftover_amount = long_amount.abs_diff(short_amount);
+    if is_long_side_left {
+        (leftover_amount, 0)
+    } else {
+        (0, leftover_amount)
+    }
 }
